@@ -196,10 +196,35 @@ ShapeCases(s) == [kind : {"shape"}, ti : {s.ti}, gi : 0..Len(Submitted), policy 
 BuildShape(x) == LET T == ShapeTargets[x.ti]   n == Len(T.P)   got == Submitted[IF x.gi = 0 THEN 1 ELSE x.gi] IN
                  Case(T.kind, x.tol, 0, x.policy, x.gi = 0, T.P, [s \in 1..n |-> got], Flat(<<1, 2>>), Cfg(One, <<1, 2>>, <<3, 10>>, <<1, 5>>))
 
+(* ------------------------------------------------------------------ histories on one comparer object (Part = "history")
+   One LinearComparer (or MatrixEntryComparer) object is shared by several graders and asked a sequence of calls:
+     linear   graders  A: expected x (scalar)   B: expected [x, 2x - 1]   Z: expected 0        (x sampled at 1, 2, 4)
+              submissions  zero | prop (2 e) | offset (e + 1) | linear (2 e + 1) | equal | sq (e^2, not linear)
+     entry    graders  V: vector target   M: 2 x 2 target;   submissions  right | one entry wrong | all wrong
+   Every state is one history (c.hist); out.calls lists, call by call, the concrete case, the allowed outcomes
+   (Comparers!Allowed of that call alone) and the outcome of the implementation-shaped object model; out.modes is the
+   object state of that model.  The adapter replays the whole history on ONE comparer object and one grader object
+   per grader name, and compares call by call.                                                                  *)
+MaxHist == 3
+HistCfgs == {Cfg(One, <<1, 2>>, <<3, 10>>, <<1, 5>>), DefaultCfg} \cup (IF Thorough THEN {Cfg(One, None, None, One)} ELSE {})
+HistSubs == {"zero", "prop", "offset", "linear"} \cup (IF Thorough THEN {"equal", "sq"} ELSE {})
+HistSeeds == {[kind |-> "seed", obj |-> "linear", cfg |-> g, mode |-> Flat(Zero)] : g \in HistCfgs}
+             \cup {[kind |-> "seed", obj |-> "entry", cfg |-> DefaultCfg, mode |-> m] : m \in {Proportional, Flat(<<1, 2>>)}}
+HistCallsFor(obj) == IF obj = "linear" THEN [g : {"A", "B", "Z"}, sub : HistSubs] ELSE [g : {"V", "M"}, sub : {"right", "one", "all"}]
+HistA(sub) == IF sub \in {"prop", "linear"} THEN [z |-> G(2), d |-> 1] ELSE IF sub = "zero" THEN [z |-> GZ, d |-> 1] ELSE [z |-> G(1), d |-> 1]
+HistB(sub) == IF sub \in {"offset", "linear"} THEN [z |-> G(1), d |-> 1] ELSE [z |-> GZ, d |-> 1]
+HistCase(seed, call) ==
+  IF seed.obj = "linear"
+  THEN BuildLin([cfg |-> seed.cfg, xi |-> IF call.g = "Z" THEN 4 ELSE 1, vec |-> call.g = "B", a |-> HistA(call.sub), b |-> HistB(call.sub),
+                 nl |-> IF call.sub = "sq" THEN "sq" ELSE "none", jit |-> 0, tol |-> "abs"])
+  ELSE LET ti == IF call.g = "V" THEN 2 ELSE 4   n == Len(EntryTargets[ti].ent) IN
+       BuildEntry([ti |-> ti, smode |-> "const", wrong |-> IF call.sub = "right" THEN {} ELSE IF call.sub = "one" THEN {1} ELSE 1..n,
+                   mode |-> seed.mode, jit |-> 0, tol |-> "abs"])
+
 (* ------------------------------------------------------------------ two-level enumeration *)
 Seeds == CASE Part = "cong" -> CongSeeds [] Part = "between" -> BetweenSeeds [] Part = "eigen" -> EigSeeds
            [] Part = "span" -> SpanSeeds [] Part = "phase" -> PhaseSeeds [] Part = "entry" -> EntrySeeds
-           [] Part = "linear" -> LinSeeds [] Part = "shape" -> ShapeSeeds
+           [] Part = "linear" -> LinSeeds [] Part = "shape" -> ShapeSeeds [] Part = "history" -> HistSeeds
 CasesFor(s) == CASE Part = "cong" -> CongCases(s) [] Part = "between" -> BetweenCases(s) [] Part = "eigen" -> EigCases(s)
                  [] Part = "span" -> SpanCases(s) [] Part = "phase" -> PhaseCases(s) [] Part = "entry" -> EntryCases(s)
                  [] Part = "linear" -> LinCases(s) [] Part = "shape" -> ShapeCases(s)
@@ -207,14 +232,26 @@ Build(x) == CASE x.kind = "cong" -> BuildCong(x) [] x.kind = "between" -> BuildB
               [] x.kind = "span" -> BuildSpan(x) [] x.kind = "phase" -> BuildPhase(x) [] x.kind = "entry" -> BuildEntry(x)
               [] x.kind = "linear" -> BuildLin(x) [] x.kind = "shape" -> BuildShape(x)
 Init == c \in Seeds /\ out = "seed"
-Next == /\ c.kind = "seed"
+NextHist == /\ c.kind = "seed" \/ (c.kind = "history" /\ Len(c.hist) < MaxHist)
+            /\ \E call \in HistCallsFor(c.obj) :
+                 LET k == HistCase(c, call)
+                     prev == IF c.kind = "seed" THEN [calls |-> <<>>, modes |-> ObjModesInit(c.cfg)] ELSE out
+                 IN /\ c' = [kind |-> "history", obj |-> c.obj, cfg |-> c.cfg, mode |-> c.mode,
+                             hist |-> Append(IF c.kind = "seed" THEN <<>> ELSE c.hist, call)]
+                    /\ out' = [calls |-> Append(prev.calls, [case |-> k, allowed |-> Allowed(k),
+                                                            impl |-> ImplOutcomeOnObject(k, prev.modes, Flaws)]),
+                               modes |-> ObjModesNext(prev.modes, k, Flaws)]
+Next == IF Part = "history" THEN NextHist ELSE
+        /\ c.kind = "seed"
         /\ c' \in CasesFor(c)
         /\ out' = LET k == Build(c')   al == Allowed(k)
                   IN [case |-> k, allowed |-> al, rel |-> RelationOf(k, al), impl |-> ImplOutcome(k, Flaws), why |-> DeviationClass(k, Flaws),
                       msg |-> IF WrongShape(k) THEN MessageModel(k.policy, ExpShape(k), k.S[1].shape)
                               ELSE [form |-> "empty", exp |-> <<>>, got |-> <<>>, same |-> FALSE]]
-IsCase == c.kind # "seed"
+IsCase == c.kind \notin {"seed", "history"}
 K == out.case
+IsHist == c.kind = "history"
+Last == out.calls[Len(out.calls)]
 
 (* ------------------------------------------------------------------ laws, one INVARIANT each *)
 LawWellFormed == IsCase => WellFormedCase(K) /\ LawOutcomeWellFormed(K, out.allowed)
@@ -239,7 +276,18 @@ LawImplDeviatesOnlyThere_ == IsCase => out.impl \in out.allowed \/ out.why # "no
 \* original form (Flaws = {"Original..."}) and check ImplRefines_: TLC must report a violation, the counterexample is the
 \* design-level defect that was repaired (vacuity guard of the refinement check).  MC_Comparers_eigen_impl.cfg does the
 \* same for the current code, where the eigenvalue-0 deviation is still present.
-ImplRefines_ == IsCase => out.impl \in out.allowed
+ImplRefines_ == (IsCase => out.impl \in out.allowed) /\ (IsHist => Last.impl \in Last.allowed)
+\* histories: every call is a guarded case of the specification; what is allowed for a call does not depend on the calls
+\* before it (equal calls, equal allowed sets); the object model of the current code never changes its state, agrees
+\* with the stateless model and stays inside the allowed set (the variant "AliasedModeFilter" does not: *_flaw_aliased_modes.cfg)
+LawHistory == IsHist =>
+  /\ Len(out.calls) = Len(c.hist) /\ Len(c.hist) <= MaxHist
+  /\ WellFormedCase(Last.case) /\ GuardOK(Last.case) /\ LawOutcomeWellFormed(Last.case, Last.allowed)
+  /\ \A i \in 1..Len(c.hist) : c.hist[i] = c.hist[Len(c.hist)] => out.calls[i].allowed = Last.allowed
+  /\ LawFreshObject(Last.case, Flaws)
+  /\ "AliasedModeFilter" \notin Flaws => /\ out.modes = ObjModesInit(c.cfg)
+                                         /\ Last.impl = ImplOutcome(Last.case, Flaws)
+                                         /\ Last.impl \in Last.allowed
 LawKind == IsCase =>
   CASE c.kind = "cong" -> LawCongruence(K.S[1], K.P[1][1], K.P[1][2])
     [] c.kind = "between" -> LawBetween(K.S[1], K.P[1][1], K.P[1][2])
